@@ -34,13 +34,20 @@ THEOREMS = ['c14_views', 'c14_decision_reauthorize', 'c14_reauthorize_concrete',
 
 MANIFEST = {
     "text": "Gallina model of the type-aware partial evaluator (tpe/evaluator.rs interpret arm by arm, residual.rs "
-            "can_error_assuming_well_formed and From<Residual> for Expr, response.rs decision table and views, api/tpe.rs "
-            "permission queries); theorems on the model for all inputs (props/C14_TPE.v); tied to /repo by differential "
-            "execution of the extracted model against PolicySet::tpe on schema-directed well-typed policy sets, partial "
-            "requests / partial stores derived from conformant data, and several consistent completions per case, plus an "
-            "implementation-level oracle (residual vs original outcome on every completion, definite decision vs from-scratch "
-            "authorization, agreement of the four views, reauthorize vs from-scratch, queries vs brute force).",
+            "can_error_assuming_well_formed, try_from_typed_expr and From<Residual> for Expr, response.rs decision table and "
+            "views, api/tpe.rs permission queries; extension library = the full table of ExtParse.v); theorems for all inputs "
+            "(props/C14_TPE.v): the four views agree, a definite decision is the reauthorization decision everywhere, every "
+            "arm of interpret preserves the value-or-error outcome under Completes and the visible side condition Side "
+            "(c14_interp_sound_partial), hence per-policy, decision, reauthorize and query soundness against the ORIGINAL "
+            "policies (c14_*_sound_partial); tied to /repo by differential execution of the extracted model against "
+            "PolicySet::tpe on schema-directed well-typed policy sets, partial requests / partial stores derived from "
+            "conformant data and several consistent and inconsistent completions per case, plus an implementation-level "
+            "oracle (residual vs original outcome on every completion, definite decision vs from-scratch authorization, "
+            "agreement of the four views, reauthorize vs from-scratch, queries vs brute force).",
     "technique": "proof (Coq) + correspondence by differential execution + metamorphic oracle (completions, views, brute force)",
+    "note": "Side (operands of && / || are booleans, a left operand with can_error = false does not error) is a hypothesis of "
+            "the *_partial theorems; c14_noerr_from_typing_partial derives its ingredients from C03's typechecker soundness on "
+            "C03's fragment only.",
 }
 
 KEY_FA = "C14:policy_set_returns_original_policies"
